@@ -264,6 +264,79 @@ def replay_sync(chk, beh):
         fx.close()
 
 
+def slow_callback_elsewhere(chk, rnd):
+    """two threads on one connection: t1's result has a callback that takes 10 s (user code); t2 waits for its own reply with a
+    5 s expiry; t1's reply comes first and t1 itself dispatches it (so t1 sits in the callback); t2's reply arrives at t = 2.
+    t2 is idle - not serving anything - so its wait must end at t = 2 with the value (not at 5 with the time-out, not at 10)."""
+    from harness.drivers import serve_common as svc
+    bad = []
+    ran_in = []
+
+    class Fx(svc.Fixture):
+        def _client(self, t):
+            r = self.reqs[t][0]
+            try:
+                if t == "t1":
+                    res = self.conn.async_request(self.consts.HANDLE_PING, svc.tag(r))
+                    self.results[r] = res
+                    res.add_callback(lambda ar: (ran_in.append(self.sched.current().name), sim.SimTime(self.sched).sleep(10)))
+                    res.wait()
+                    self.outcome[r] = ("ok", res.value)
+                else:
+                    res = self.conn.async_request(self.consts.HANDLE_PING, svc.tag(r), timeout=5)
+                    self.results[r] = res
+                    self.outcome[r] = ("ok", res.value)
+            except BaseException as ex:  # noqa
+                if isinstance(ex, sim.SimAbort):
+                    raise
+                self.outcome[r] = ("exc", type(ex).__name__)
+            self.done_at[r] = self.sched.now
+
+    fx = Fx({"t1": ["a1"], "t2": ["b1"]}, False)
+    s = fx.sched
+    try:
+        def settle():
+            for _ in range(5000):
+                en = [t for t in s.live() if t.pending.is_enabled()]
+                if not en:
+                    return
+                s.step(en[rnd.randrange(len(en))], "go")
+            raise sim.StepLimit("slow callback scenario")
+        settle()                                   # both requests are out, both threads wait
+        sent = dict(fx.sent_requests())
+        if set(sent) != {"a1", "b1"}:
+            chk.drift.append("slow-callback scenario: requests not sent (%s)" % sorted(sent))
+            return bad
+        fx.peer_reply("a1", sent["a1"])
+        settle()                                   # somebody dispatches a1 and sits in its callback
+        s.now = 2.0
+        fx.peer_reply("b1", sent["b1"])
+        settle()
+        for _ in range(20):                        # let the clock run: time-outs and the end of the callback
+            if all(t.done for t in fx.clients.values()):
+                break
+            live = [t for t in s.live() if t.pending.deadline is not None]
+            if not live:
+                break
+            s.now = max(s.now, min(t.pending.deadline for t in live))
+            for t in live:
+                if t.pending.deadline <= s.now and not t.pending.is_enabled():
+                    s.step(t, "timeout")
+            settle()
+        chk.evaluated()
+        if ran_in[:1] != ["t1"]:
+            return bad                             # t2 dispatched a1 itself: it was busy serving, nothing is demanded
+        o, at = fx.outcome.get("b1"), fx.done_at.get("b1")
+        if o != ("ok", svc.tag("b1")) or at is None or abs(at - 2.0) > 1e-6:
+            bad.append(("threads:held-up-by-callback", "t2 waits (expiry 5 s) for a reply that arrives at t = 2 s while t1 runs a 10 s "
+                        "callback of another result: t2 ended with %r at t = %s instead of its value at t = 2" % (o, at)))
+        else:
+            chk.validated()
+        return bad
+    finally:
+        fx.close()
+
+
 def main():
     chk = Check(PID)
     gc.disable()
@@ -375,6 +448,13 @@ def main():
             chk.validated()
     for cfgname in (("2bg", "2") if not chk.thorough else ("2bg", "2", "3", "3bg")):
         svc.explore_line_preemptions(chk, cfgname, on_result, callbacks=True)
+    # an idle waiter is not held up by another thread's slow callback
+    srnd = random.Random(chk.seed + 77)
+    for i in range(40 if not chk.thorough else 600):
+        for key, msg in slow_callback_elsewhere(chk, srnd):
+            chk.violation(key, "C15 " + msg, {"mode": "slow-callback", "run": i})
+        if i % 100 == 99:
+            gc.collect()
     chk.assumptions += [
         "virtual time: one tick = 1 s; a waiter reacts to data / expiry at the instant it happens (run-to-completion)",
         "'the reply came first' means: it was processed by a serve on the connection before the expiry instant; a frame that "
